@@ -867,8 +867,10 @@ def OP_CALL(tape: Tape, stack: Stack, cache: dict) -> None:
     subtape.callstack_count = tape.callstack_count
 
     subtape.pointer = 0
-    run_tape(subtape, stack, cache, additional_flags=tape.flags)
-    subtape.pointer = init_pointer
+    try:
+        run_tape(subtape, stack, cache, additional_flags=tape.flags)
+    finally:
+        subtape.pointer = init_pointer
     if 'returned' in cache:
         del cache['returned']
 
